@@ -239,6 +239,11 @@ impl<'a> Rewriter<'a> {
                     p.used = true;
                     let _ = write!(start_text, "\nproof {{\n{}}}\n", p.text);
                 }
+                "rawstart" => {
+                    // ghost declarations (`let ghost x = ..;`) that must stay in scope for the whole body
+                    p.used = true;
+                    let _ = write!(start_text, "\n{}\n", p.text);
+                }
                 "tail" => {
                     // R7: bind the tail expression to `__ret`, run the proof, return `__ret`
                     if !self.rules.contains("R7") {
@@ -368,7 +373,9 @@ fn split_format(fmt: &str, ctx: &str) -> Vec<Result<String, Option<String>>> {
                 if j >= cs.len() {
                     die("unsupported", &format!("{ctx}: unterminated format hole"));
                 }
-                if !name.chars().all(|c| c.is_alphanumeric() || c == '_') || name.chars().next().map(|c| c.is_ascii_digit()).unwrap_or(false) {
+                let base = if name == ":?" { "" } else { name.strip_suffix(":?").unwrap_or(&name) };
+                let name = if name == ":?" { "?".to_string() } else { name.clone() };
+                if !base.chars().all(|c| c.is_alphanumeric() || c == '_') || base.chars().next().map(|c| c.is_ascii_digit()).unwrap_or(false) {
                     die("unsupported", &format!("{ctx}: R4 side condition: format hole `{{{name}}}` is not `{{}}`/`{{ident}}`"));
                 }
                 if !lit.is_empty() {
@@ -397,14 +404,25 @@ impl<'r, 'a> Collector<'r, 'a> {
 
     /// R4 on `format!(LIT, args..)`: nested __fmt_cat2 over literal pieces and __disp(arg).
     fn format_macro(&mut self, mac: &syn::Macro) -> Option<String> {
+        self.format_macro_ex(mac, 0, "").map(|(_, t)| t)
+    }
+
+    /// `skip` leading arguments are returned rendered (the writer of write!/writeln!); `suffix` is
+    /// appended to the format string (newline of writeln!).
+    fn format_macro_ex(&mut self, mac: &syn::Macro, skip: usize, suffix: &str) -> Option<(Vec<String>, String)> {
         let args = match mac.parse_body_with(syn::punctuated::Punctuated::<syn::Expr, syn::Token![,]>::parse_terminated) {
             Ok(a) => a,
             Err(_) => die("unsupported", &format!("{}: cannot parse format! arguments", self.rw.fn_path)),
         };
         let mut it = args.iter();
+        let mut lead = vec![];
+        for _ in 0..skip {
+            let a = it.next()?;
+            lead.push(self.render(a));
+        }
         let first = it.next()?;
         let fmt = match first {
-            syn::Expr::Lit(syn::ExprLit { lit: syn::Lit::Str(s), .. }) => s.value(),
+            syn::Expr::Lit(syn::ExprLit { lit: syn::Lit::Str(s), .. }) => format!("{}{}", s.value(), suffix),
             _ => die("unsupported", &format!("{}: R4 side condition: format string is not a literal", self.rw.fn_path)),
         };
         let rest: Vec<&syn::Expr> = it.collect();
@@ -423,6 +441,13 @@ impl<'r, 'a> Collector<'r, 'a> {
                     let t = self.render(a);
                     parts.push(format!("&__disp(&({t}))"));
                 }
+                Err(Some(n)) if n == "?" => {
+                    let a = rest.get(pos).unwrap_or_else(|| die("unsupported", &format!("{}: format! has too few arguments", self.rw.fn_path)));
+                    pos += 1;
+                    let t = self.render(a);
+                    parts.push(format!("&__dbg(&({t}))"));
+                }
+                Err(Some(n)) if n.ends_with(":?") => parts.push(format!("&__dbg(&{})", n.trim_end_matches(":?"))),
                 Err(Some(n)) => parts.push(format!("&__disp(&{n})")),
             }
         }
@@ -439,23 +464,36 @@ impl<'r, 'a> Collector<'r, 'a> {
                 Some(a) => format!("__fmt_cat2({p}, {a})"),
             });
         }
-        match (n, acc) {
+        let t = match (n, acc) {
             (0, _) => {
                 self.rw.strlits.push(String::new());
-                Some("__fmt_cat2(\"\", \"\")".to_string())
+                "__fmt_cat2(\"\", \"\")".to_string()
             }
             (1, Some(a)) => {
                 self.rw.strlits.push(String::new());
-                Some(format!("__fmt_cat2({a}, \"\")"))
+                format!("__fmt_cat2({a}, \"\")")
             }
-            (_, a) => a,
-        }
+            (_, a) => a.unwrap(),
+        };
+        Some((lead, t))
     }
 
     fn loop_native(&mut self, iter_expr: Option<&syn::Expr>, body: &syn::Block) {
         let key = format!("{}", self.rw.native_loops);
         self.rw.native_loops += 1;
         let (iter, hdr, bs, be) = self.rw.loop_parts(&key);
+        let wrap = self.rw.loops.iter().find(|l| l.key == key).and_then(|l| l.wrap.clone());
+        if let Some(w) = wrap {
+            match iter_expr {
+                Some(e) => {
+                    let r = rng(e);
+                    self.edits.push(Edit { range: r.start..r.start, text: format!("{w}(&("), prio: 0 });
+                    self.edits.push(Edit { range: r.end..r.end, text: "))".to_string(), prio: 0 });
+                    self.rw.log.push(format!("R8 loop {key}: iterate over {w}(..)"));
+                }
+                None => die("malformed-unit", &format!("{}: wrap= on a non-for loop {key}", self.rw.fn_path)),
+            }
+        }
         if !iter.is_empty() {
             match iter_expr {
                 Some(e) => {
@@ -541,6 +579,13 @@ impl<'ast, 'r, 'a> Visit<'ast> for Collector<'r, 'a> {
                     self.edits.push(Edit { range: rng(e), text: t, prio: 0 });
                 }
             }
+            syn::Expr::Macro(em) if self.rw.on("R4w") && (em.mac.path.is_ident("write") || em.mac.path.is_ident("writeln")) => {
+                let suffix = if em.mac.path.is_ident("writeln") { "\n" } else { "" };
+                if let Some((lead, t)) = self.format_macro_ex(&em.mac, 1, suffix) {
+                    self.rw.log.push("R4w write!/writeln! -> __write_str".to_string());
+                    self.edits.push(Edit { range: rng(e), text: format!("__write_str({}, &{t})", lead[0]), prio: 0 });
+                }
+            }
             syn::Expr::Macro(em) => {
                 // look inside other macros' arguments when they parse as expressions (e.g. assert!, vec!)
                 if let Ok(args) = em.mac.parse_body_with(syn::punctuated::Punctuated::<syn::Expr, syn::Token![,]>::parse_terminated) {
@@ -548,6 +593,12 @@ impl<'ast, 'r, 'a> Visit<'ast> for Collector<'r, 'a> {
                         self.visit_expr(a);
                     }
                 }
+            }
+            syn::Expr::Binary(b) if self.rw.on("R9") && matches!(b.op, syn::BinOp::BitOrAssign(_)) => {
+                let l = self.render(&b.left);
+                let r = self.render(&b.right);
+                self.rw.log.push("R9 `a |= b` -> __rb_or_assign".to_string());
+                self.edits.push(Edit { range: rng(e), text: format!("__rb_or_assign(&mut {l}, &{r})"), prio: 0 });
             }
             syn::Expr::ForLoop(f) => {
                 self.loop_native(Some(&f.expr), &f.body);
